@@ -72,6 +72,7 @@ func checkC20(c *Check) {
 	c.passiveNeverDials("C20.5 passive-never-dials")
 	c.passiveOption("C20.5 passive-option")
 	c.registryKeys("C20.1 registry-keys")
+	c.optionsApplied("C20.4 options-applied")
 	c.accumulatorsStartEmpty("C20.2 accumulators", "Server.ListPeers")
 	isExists := func(e *Expr) bool {
 		return e.Op == "ex" && len(e.Args) == 2 && e.Args[0].Op == "val" && isBoolType(e.Typ)
